@@ -214,6 +214,11 @@ def delta_rule(ctx, prog):
                         got = got + (nxt,)
                 if not ok:
                     bad.append((j, c, k, want, got))
+                if (c, k) in ((1, 0b111000), (20, 0b101100), (5, 0b100000), (1, 0), (19, 0b101011), (31, 0)) and j == 0:
+                    ctx.sample({'fragment': 'delta-code step of retrieve()', 'current_length': c,
+                                'pattern': format(k, '06b'), 'reference': 'reject' if want == ('err',) else
+                                {'consumed_bits': want[0], 'length': want[1], 'symbol_done': want[2]},
+                                'lbzip2': str(got), 'agree': ok})
     if unknown:
         broken('C05 delta-code fragment could not be tabulated: %s' % (unknown[:3],))
     ctx.ob('C05.delta_tables', 'all %d (symbol position, current length, 6-bit pattern) cases' % n, f.loc(ls.peek),
@@ -322,6 +327,9 @@ def parse_fsm_rule(ctx, prog, pfx='C05', crc_bits=True):
                     n += 1
                     r = parsefsm.compare(ps, sname, w, sm, stored, computed, rnd.randint(1, 9), live=live)
                     per_state[sname] = per_state.get(sname, 0) + 1
+                    if per_state[sname] in (1, 7) and live == 45:
+                        ctx.sample({'fragment': 'one step of parse()', 'state': sname, 'word': '%#06x' % w,
+                                    'stream_mode': sm, 'disagreements': r})
                     if r:
                         bad.append((sname, sm, w, r))
     ctx.ob(pfx + '.parse_fsm.transitions', 'every (state, word class, mode) transition of parse() equals the bzip2 '
